@@ -412,6 +412,31 @@ def table_graph(draw):
     return {"triples": [tr[i] for i in perm], "classes": [A] + (["http://ex.org/ns/C1"] if with_E else []), "inst_prop": RDF_TYPE}
 
 
+@st.composite
+def fan_graph(draw):
+    """fan-in: 3-6 instances of class C0, each the object of one or two properties from 1-3 subjects out of a pool whose members
+    carry different class sets (none, C1, C2, C1+C2, C0): the incoming values of a property are of several kinds with unequal
+    frequencies (IRI 3/3, @C1 2/3, @C2 1/3 ...), and which subject of a target is met first depends on the statement order"""
+    k = draw(st.integers(3, 6))
+    C = [class_iri(0), class_iri(1), class_iri(2)]
+    tr = [[["iri", "http://ex.org/o%d" % i], RDF_TYPE, ["iri", C[0]]] for i in range(k)]
+    sets = draw(st.lists(st.sampled_from([[], [1], [1], [2], [1, 2], [1, 2], [0], [0, 1]]), min_size=3, max_size=6))
+    subs = []
+    for j, cs in enumerate(sets):
+        node = ["iri", "http://ex.org/s%d" % j] if (cs or draw(st.integers(0, 3))) else ["bnode", "_:s%d" % j]
+        subs.append(node)
+        for c in cs:
+            tr.append([node, RDF_TYPE, ["iri", C[c]]])
+        if draw(st.booleans()):
+            tr.append([node, "http://ex.org/label", make_lit("str", j % 4)])
+    for i in range(k):
+        for pi in range(draw(st.integers(1, 2))):
+            for j in draw(st.lists(st.integers(0, len(subs) - 1), min_size=0 if pi else 1, max_size=3, unique=True)):
+                tr.append([subs[j], "http://ex.org/p%d" % pi, ["iri", "http://ex.org/o%d" % i]])
+    perm = draw(st.permutations(range(len(tr))))
+    return {"triples": [tr[i] for i in perm], "classes": C, "inst_prop": RDF_TYPE}
+
+
 def expand(g):
     """graphs may be stored compactly in a case ({"scale": [n, missing, double]}, {"ladder": n})"""
     if "scale" in g:
